@@ -1,6 +1,6 @@
 """C11 — one value whichever way the caller asks: the six executeMore switches are the same function modulo
 the canonical conversion (sibling dispatch agreement, E1)."""
-import collections
+import collections, re
 from ..build import AnalysisBroken
 from ..mast import walk, calls, callee, switch_cases, label_name, strip_casts, pp
 from ..facts import short
@@ -376,3 +376,163 @@ _run_c11_prev = run
 def run(res, facts, tier):
     _run_c11_prev(res, facts, tier)
     r6_wrappers(res, facts)
+
+
+# ----------------------------------------------------------------------------------------------- R7: string twin == character-events twin
+TWIN_ALIAS = {'doGetNodeData': 'getNodeData', 'NumberToDOMString': 'NUM', 'NumberToCharacters': 'NUM'}
+# pairs whose bodies legitimately differ in shape, one reason each (function name -> reason)
+TWIN_REVIEWED = {
+    'XNumber::str': 'the character-events overloads send str(), which fills m_cachedStringValue with NumberToDOMString(m_value) when it is empty; the string overloads '
+                    'append the cached value or NumberToDOMString(m_value): the same characters',
+}
+
+
+def _twin_canon(a):
+    """canonical form of a conversion body with the sink (XalanDOMString& result / FormatterListener& + member function) abstracted away"""
+    sinks = set()
+    for p in a['params']:
+        t = short(p.get('ty', ''))
+        if t == 'XalanDOMString &' or t.startswith('FormatterListener &') or '(FormatterListener::*)' in t:
+            sinks.add(p['id'])
+
+    def is_sink(e):
+        e = strip_casts(e)
+        return e is not None and e.get('k') == 'Ref' and e.get('id') in sinks
+
+    def is_assert(s):
+        s0 = s
+        while s0.get('k') == 'Cast':
+            s0 = s0['e']
+        if s0.get('k') in ('Int', 'Bool'):
+            return True
+        return s0.get('k') == 'Cond' and any((c.get('n') or '') == '__assert_fail' for c in calls(s0))
+
+    def emit(x):
+        x = strip_casts(x)
+        if x.get('k') == 'Cond':
+            return [('if', pp(x['c']), emit(x['t']), emit(x['f']))]
+        return ['EMIT(%s)' % pp(x)]
+
+    def expr_stmt(s):
+        e = strip_casts(s)
+        if e.get('k') in ('Call', 'MCall'):
+            n = e.get('n') or (callee(e).split('::')[-1] if e.get('fn') != '<memptr>' else '<memptr>')
+            args = e.get('args', [])
+            plain = [x for x in args if not is_sink(x)]
+            obj_sink = e.get('k') == 'MCall' and e.get('obj') is not None and is_sink(e['obj'])
+            carries = obj_sink or len(plain) != len(args)
+            if not carries:
+                return [pp(e)]
+            if obj_sink and n == 'append' and len(plain) == 1:
+                return emit(plain[0])
+            if n == 'sendData' and len(plain) == 1:
+                return emit(plain[0])
+            if n == 'string' and len(plain) == 1 and 'XalanDOMString' in (strip_casts(plain[0]).get('ty') or ''):
+                return emit(plain[0])
+            if obj_sink and (e.get('n') is None or e.get('fn') == '<memptr>') and len(plain) == 2:
+                p0, p1 = strip_casts(plain[0]), strip_casts(plain[1])
+                if p0.get('k') == 'MCall' and p0.get('n') == 'c_str' and p1.get('k') == 'MCall' and p1.get('n') == 'length' and pp(p0['obj']) == pp(p1['obj']):
+                    return emit(p0['obj'])
+                return ['EMIT-RANGE(%s, %s)' % (pp(p0), pp(p1))]
+            if e.get('k') == 'MCall' and not obj_sink and n == 'str' and not plain:
+                return ['EMIT(%s.str())' % pp(e['obj'])]
+            if n == 'string' and plain and 'XalanDOMString' not in (strip_casts(plain[0]).get('ty') or ''):
+                n = 'getNodeData'
+            n = TWIN_ALIAS.get(n, n)
+            pre = (pp(e['obj']) + '.') if e.get('k') == 'MCall' and e.get('obj') is not None and not obj_sink and strip_casts(e['obj']).get('k') != 'This' else ''
+            return ['%s%s(%s | SINK)' % (pre, n, ', '.join(pp(x) for x in plain))]
+        return [pp(e)]
+
+    def stmt(s):
+        k = s.get('k')
+        if k == 'Compound':
+            out = []
+            for c in s['c']:
+                out.extend(stmt(c))
+            return out
+        if k == 'If':
+            return [('if', pp(s['cond']), stmt(s['then']), stmt(s['else']) if s.get('else') else [])]
+        if k == 'Decl':
+            return ['%s = %s' % (v['n'], pp(v['init']) if v.get('init') is not None else '') for v in s['vars']]
+        if k == 'Return':
+            return [('return', expr_stmt(s['e']) if s.get('e') else [])]
+        if k in ('While', 'For', 'Do'):
+            return [(k, pp(s['cond']) if s.get('cond') else '', stmt(s['init']) if s.get('init') else [], pp(s['inc']) if s.get('inc') else '', stmt(s['body']))]
+        if k == 'Switch':
+            return [('switch', pp(s['cond']), stmt(s['body']))]
+        if k in ('Case', 'Default'):
+            return [(k, pp(s['v']) if s.get('v') else '', stmt(s['s']) if s.get('s') else [])]
+        if k in ('Break', 'Continue', 'Null'):
+            return [k]
+        if is_assert(s):
+            return []
+        return expr_stmt(s)
+    return stmt(a['body'])
+
+
+def _first_diff(x, y, path=''):
+    if type(x) != type(y):
+        return path, x, y
+    if isinstance(x, (list, tuple)):
+        for i in range(max(len(x), len(y))):
+            if i >= len(x) or i >= len(y):
+                return path + '[%d]' % i, x[i] if i < len(x) else '(nothing)', y[i] if i < len(y) else '(nothing)'
+            d = _first_diff(x[i], y[i], path + '[%d]' % i)
+            if d:
+                return d
+        return None
+    return None if x == y else (path, x, y)
+
+
+def r7_twins(res, facts):
+    r7 = res.rule('C11-R7', 'the conversions to character events and to a string buffer are the same function: for every pair of overloads in DOMServices and the XObject classes that differ '
+                  'only in the result sink (XalanDOMString& against FormatterListener& + member function), the bodies are equal once the sink is abstracted (same tests, same callees, '
+                  'same other arguments - in particular the execution context is handed on by both or by neither)', floor=40)
+    byname = collections.defaultdict(list)
+    for k in facts.astidx:
+        a = facts.ast(k)
+        if a is None or a.get('body') is None:
+            continue
+        fn = facts.F.get(k)
+        if not fn:
+            continue
+        f = a['file']
+        if not (f.endswith(('DOMServices.cpp', 'DOMServices.hpp')) or re.search(r'/XPath/X[A-Z][A-Za-z]*\.(cpp|hpp)$', f)) or re.search(r'/XPath/XPath[A-Za-z]*\.(cpp|hpp)$', f):
+            continue
+        byname[fn['name']].append(a)
+
+    def kinds(a):
+        return [short(p.get('ty', '')) for p in a['params']]
+    n_pairs = 0
+    for name, lst in sorted(byname.items()):
+        for a in lst:
+            t = kinds(a)
+            if not (any(x.startswith('FormatterListener &') for x in t) and any('(FormatterListener::*)' in x for x in t)):
+                continue
+            key = [x for x in t if not x.startswith('FormatterListener &') and '(FormatterListener::*)' not in x]
+            tw = [b for b in lst if kinds(b).count('XalanDOMString &') == 1 and [x for x in kinds(b) if x != 'XalanDOMString &'] == key]
+            site = '%s(%s)' % (short(name), ', '.join(x.replace('const ', '').replace(' &', '') for x in key) or 'no other argument')
+            if len(tw) != 1:
+                continue
+            n_pairs += 1
+            ca, cb = _twin_canon(a), _twin_canon(tw[0])
+            d = _first_diff(ca, cb)
+            sn = short(name)
+            if d is None:
+                r7.ok(site, 'equal modulo the sink')
+            elif sn in TWIN_REVIEWED:
+                r7.ok(site, 'reviewed: ' + TWIN_REVIEWED[sn])
+            else:
+                r7.violation(site, 'the character-events overload and the string overload differ: events %s / string %s (first difference; %s:%s against %s:%s)'
+                             % (str(d[1])[:160], str(d[2])[:160], a['file'].split('/')[-1], a['line'], tw[0]['file'].split('/')[-1], tw[0]['line']), common.file_line(a))
+    if n_pairs < 40:
+        raise AnalysisBroken('only %d string / character-events pairs found (DOMServices and the XObject classes have 47)' % n_pairs)
+    return r7
+
+
+_run_c11_prev6 = run
+
+
+def run(res, facts, tier):
+    _run_c11_prev6(res, facts, tier)
+    r7_twins(res, facts)
